@@ -16,3 +16,39 @@ Definition bearer_expected (hdr_tok query_tok form_tok : bytes) (form_ct : bool)
           | [] => if form_ct then nonempty form_tok else None
           end
   end.
+
+(* ---------- the default-credential rule, stated on what reaches the wire ---------- *)
+Definition is_nil (b : bytes) : bool := match b with [] => true | _ :: _ => false end.
+
+(* the transport-wide default credential may be used only when the operation has no writer of its own
+   and the parameters have not set an Authorization header *)
+Definition default_applicable (op : option writer) (q0 : request) : bool :=
+  match op with Some _ => false | None => is_nil (raw_header s_authorization q0) end.
+
+(* the request the property asks for: the operation's own credential, and the default one only when applicable *)
+Definition expected_request (op default : option writer) (q0 : request) : request :=
+  let q1 := match op with Some w => write_cred w q0 | None => q0 end in
+  match default with
+  | Some d => if default_applicable op q0 then write_cred d q1 else q1
+  | None => q1
+  end.
+
+(* what is observed of a request after the wire: every header that is not set by the transport itself
+   (lower-cased name, values) and every query parameter (name, values). An empty header value counts as absent. *)
+Definition obs_map := list (bytes * list bytes).
+Definition nonempty_vals (vs : list bytes) : list bytes := filter (fun v => negb (is_nil v)) vs.
+Definition header_vals (k : bytes) (q : request) : list bytes :=
+  match get_header k q with [] => [] | v => [v] end.
+Definition headers_match (obs : obs_map) (q : request) : bool :=
+  forallb (fun kv => list_eqb bytes_eqb (nonempty_vals (snd kv)) (header_vals (fst kv) q)) obs &&
+  forallb (fun kv => list_eqb bytes_eqb (nonempty_vals (lookup_vals (fst kv) obs)) (header_vals (fst kv) q)) (r_headers q).
+Definition query_match (obs : obs_map) (q : request) : bool :=
+  forallb (fun kv => list_eqb bytes_eqb (snd kv) (lookup_vals (fst kv) (r_query q))) obs &&
+  forallb (fun kv => list_eqb bytes_eqb (lookup_vals (fst kv) obs) (lookup_vals (fst kv) (r_query q))) (r_query q).
+Definition wire_match (obs_headers obs_query : obs_map) (q : request) : bool :=
+  headers_match obs_headers q && query_match obs_query q.
+
+(* the request before the credentials are written: what the operation's parameters have set *)
+Definition preset_request (hs qs : list (bytes * bytes)) (q : request) : request :=
+  fold_left (fun acc kv => set_query (fst kv) [snd kv] acc) qs
+            (fold_left (fun acc kv => set_header (fst kv) (snd kv) acc) hs q).
